@@ -10,6 +10,11 @@
 //   psyn [@sizes] <T> <prefix hex> <unit hex> <count> <suffix hex>
 //       the same on the input  prefix ++ unit^count ++ suffix  built here (inputs too big for a protocol line
 //       of the model evaluator)
+//   parsed_scan [@sizes] <tx|block|prefix> <hex> <maj_lo> <maj_hi> <min_lo> <min_hi>
+//       output scanning of whatever parses, with the caller's index ranges major = maj_lo..maj_hi, minor = min_lo..min_hi
+//       (empty, reversed, near u32::MAX ... ; a non-empty table is limited to 4096 entries): Transaction::check_outputs,
+//       TransactionPrefix::check_outputs (without / with the RingCT base), SubKeyChecker::new + check_outputs_with on both,
+//       and every accessor of the OwnedTxOut values found.  Result: OK | ERR (parse error), never the scan result.
 //   hexparse <hash|hash8|pid> <text as hex>      Hash / Hash8 / PaymentId :: from_hex        -> OK <bytes> | ERR
 //   denom <text as hex>                          Denomination::from_str                     -> OK <name> | ERR
 use crate::{show_hex, unhex};
@@ -18,7 +23,9 @@ use monero::blockdata::transaction::{ExtraField, RawExtraField};
 use monero::consensus::encode::{deserialize_partial, serialize};
 use monero::cryptonote::hash::{Hash, Hash8, Hashable};
 use monero::util::address::PaymentId;
+use monero::cryptonote::onetime_key::SubKeyChecker;
 use monero::util::key::{PrivateKey, PublicKey, ViewPair};
+use std::ops::Range;
 use monero::{Block, BlockHeader, Denomination, Transaction, TransactionPrefix};
 use std::hint::black_box;
 use std::str::FromStr;
@@ -136,6 +143,65 @@ fn parsed_ops(ty: &str, b: &[u8]) -> Option<String> {
     })
 }
 
+fn touch_owned(owned: &[monero::OwnedTxOut]) -> usize {
+    for o in owned.iter() {
+        black_box((o.index(), o.out().amount.0, o.sub_index(), o.tx_pubkey(), o.amount(), o.blinding_factor(), o.commitment()));
+    }
+    owned.len()
+}
+
+fn scan_prefix(p: &TransactionPrefix, base: Option<&monero::util::ringct::RctSigBase>, maj: Range<u32>, min: Range<u32>) -> usize {
+    let pair = view_pair();
+    let mut found = 0;
+    if let Ok(o) = black_box(p.check_outputs(&pair, maj.clone(), min.clone(), None)) {
+        found += touch_owned(&o);
+    }
+    if let Ok(o) = black_box(p.check_outputs(&pair, maj.clone(), min.clone(), base)) {
+        found += touch_owned(&o);
+    }
+    let checker = SubKeyChecker::new(&pair, maj, min);
+    if let Ok(o) = black_box(p.check_outputs_with(&checker, base)) {
+        found += touch_owned(&o);
+    }
+    found
+}
+
+fn scan_tx(tx: &Transaction, maj: Range<u32>, min: Range<u32>) -> usize {
+    let pair = view_pair();
+    let mut found = 0;
+    if let Ok(o) = black_box(tx.check_outputs(&pair, maj.clone(), min.clone())) {
+        found += touch_owned(&o);
+    }
+    let checker = SubKeyChecker::new(&pair, maj.clone(), min.clone());
+    if let Ok(o) = black_box(tx.check_outputs_with(&checker)) {
+        found += touch_owned(&o);
+    }
+    found + scan_prefix(tx.prefix(), tx.rct_signatures.sig.as_ref(), maj, min)
+}
+
+fn parsed_scan(ty: &str, b: &[u8], maj: Range<u32>, min: Range<u32>) -> Option<String> {
+    let found;
+    match ty {
+        "tx" => match deserialize_partial::<Transaction>(b) {
+            Ok((x, _)) => found = scan_tx(&x, maj, min),
+            Err(_) => return Some("ERR".into()),
+        },
+        "block" => match deserialize_partial::<Block>(b) {
+            Ok((x, _)) => found = scan_tx(&x.miner_tx, maj, min),
+            Err(_) => return Some("ERR".into()),
+        },
+        "prefix" => match deserialize_partial::<TransactionPrefix>(b) {
+            Ok((x, _)) => found = scan_prefix(&x, None, maj, min),
+            Err(_) => return Some("ERR".into()),
+        },
+        _ => return None,
+    }
+    if std::env::var_os("MRS_SCAN_DEBUG").is_some() {
+        eprintln!("parsed_scan: {} owned outputs reported", found);
+    }
+    Some("OK".into())
+}
+
 fn strip_sizes<'a, 'b>(args: &'a [&'b str]) -> Result<&'a [&'b str], String> {
     if let Some(a) = args.first() {
         if a.starts_with('@') {
@@ -160,6 +226,27 @@ pub fn run(op: &str, args: &[&str]) -> Option<String> {
             }
             let b = unhex(args[1])?;
             parsed_ops(args[0], &b)
+        }
+        "parsed_scan" => {
+            let args = match strip_sizes(args) {
+                Ok(a) => a,
+                Err(e) => return Some(e),
+            };
+            if args.len() != 6 {
+                return None;
+            }
+            let b = unhex(args[1])?;
+            let n: Vec<u32> = args[2..].iter().filter_map(|a| a.parse().ok()).collect();
+            if n.len() != 4 {
+                return None;
+            }
+            // the table costs one scalar multiplication per entry: the generator keeps non-empty tables small
+            let rows = n[1].saturating_sub(n[0]) as u64;
+            let cols = n[3].saturating_sub(n[2]) as u64;
+            if rows * cols > 4096 {
+                return None;
+            }
+            parsed_scan(args[0], &b, n[0]..n[1], n[2]..n[3])
         }
         "psyn" => {
             let args = match strip_sizes(args) {
